@@ -25,6 +25,12 @@ def jobs(ctx, props):
                      'max_workers': 2, 'outcomes': ('success', 'failure'),
                      'revs': ('r1', 'r2'), 'life': True, 'poll': True,
                      'max_life': 3 if quick else 4}))
+    # one event without run id whose job leaves the scheduler in several batches
+    # (a dependant requested together with its ancestor, two targets finishing
+    # at different times without new values): every batch draws its own run id
+    out.append(('chain2/batches', E['chain2'], ['A', 'B'], props,
+                {'reqs': 2, 'req_menu': [('ta.a', ('A', 'B')), ('ta.b', ('A', 'B'))],
+                 'outcomes': ('success-none-new',), 'revs': ('r1',)}))
     for name, desc, targets, pr, opts in schedcheck.timer_jobs(props, quick):
         opts = dict(opts, mode='explicit', max_workers=1, outcomes=('success',), revs=('r1',))
         out.append((name + '/explicit', desc, targets, pr, opts))
